@@ -65,6 +65,7 @@ type schedStep struct {
 	Call    string `json:"call,omitempty"`
 	Gate    string `json:"gate,omitempty"`
 	Outcome string `json:"outcome,omitempty"`
+	N       int    `json:"n,omitempty"`
 }
 
 // apply executes one schedule step and waits until every goroutine is parked, blocked or done.
@@ -147,7 +148,11 @@ func (s *scenario) apply(st schedStep) error {
 		s.c.mu.Unlock()
 		p.cancel()
 	case "tick":
-		time.Sleep(tickDur)
+		n := st.N
+		if n < 1 {
+			n = 1
+		}
+		time.Sleep(time.Duration(n) * tickDur)
 	default:
 		return fmt.Errorf("unknown step %q", st.A)
 	}
